@@ -14,6 +14,10 @@ mod matgen;
 mod c11;
 mod c12;
 mod c08;
+mod diagrams;
+mod diag;
+mod khcommon;
+mod c01;
 
 use framework::*;
 
@@ -22,6 +26,7 @@ fn check_by_id(id: &str) -> Option<Box<dyn Check>> {
         "C11" => Some(Box::new(c11::C11)),
         "C12" => Some(Box::new(c12::C12)),
         "C08" => Some(Box::new(c08::C08)),
+        "C01" => Some(Box::new(c01::C01)),
         _ => None,
     }
 }
